@@ -11,7 +11,7 @@ import (
 )
 
 func init() {
-	register("C20", 25, "Decided (for every path of the current source): (R1) both repeat counts of the bar are clamped to 0..total and the bar is only drawn for length >= 12, so rendering cannot panic whatever step/size it is handed; (R2) the percentage that is formatted is clamped to 0..100; (R3) the step shown never decreases within a file — it is written by the name reset, by 'done' (= size) and by the step update whose store is on the step > previous edge; (R4) the layout ladder leaves only through the fit test evaluated on exactly the (name, right part) combination that is then used, the last fallback clears the name, every shortened name is paired with the width returned by the same shortening call, the right-hand formats are ASCII-only, the bar is '[' + (length-2) cells + ']'; (R5) the shortening function measures every rune with the same width function and stops before exceeding the budget. Not decided: the display-width bound for all names x widths (wide runes, ellipsis arithmetic), timing of redraws.",
+	register("C20", 25, "Decided (for every path of the current source): (R1) both repeat counts of the bar are clamped to 0..total and the bar is only drawn for length >= 12, so rendering cannot panic whatever step/size it is handed; (R2) the percentage that is formatted is clamped to 0..100; (R3) the step shown never decreases within a file — it is written by the name reset, by 'done' (= size) and by the step update whose store is on the step > previous edge; (R4) the layout ladder leaves only through the fit test evaluated on exactly the (name, right part) combination that is then used, the last fallback clears the name, every shortened name is paired with the width returned by the same shortening call, the right-hand formats are ASCII-only, the bar is '[' + (length-2) cells + ']'; (R5) the shortening function measures every rune with the same width function and stops before exceeding the budget. Not decided: the display-width bound for all names x widths (wide runes, ellipsis arithmetic), timing of redraws. Added to R3: kept-prefix accounting (reset at file start, set by the resume exchange, included in step and size).",
 		func(c *Ctx) {
 			c.run("C20-R1", "GUARD-DOM: bar cell counts are clamped; no bar below the minimum length", c20R1)
 			c.run("C20-R2", "GUARD-DOM: percentage within 0..100", c20R2)
